@@ -54,13 +54,23 @@ def run_config(cfg, res):
   transport = conn.h_connection_made()
   listener = P.MetricPickleReceiver if cfg['proto'] == 'pickle' else P.MetricLineReceiver
   ncases = 500 if cfg['tier'] == 'quick' else 8000
+  pool, dppool = [], []
   for case in range(ncases):
     batch = r.choice([1, 2, 3, 7, 500])
     settings['MAX_DATAPOINTS_PER_MESSAGE'] = batch
     n = r.choice([0, 1, 2, 3, 5, 7, 8, 14, 21, 40])
     queued = []
+    share = r.random() < 0.5          # recurring series: the very same name / datapoint objects show up in several messages
     for i in range(n):
-      name = 'q%d.%s' % (i, gen.metric_name(r, nonascii=r.random() < 0.5, punct=r.random() < 0.3))
+      if share and pool and r.random() < 0.8:
+        if r.random() < 0.3 and dppool:
+          queued.append(r.choice(dppool))
+          continue
+        name = r.choice(pool)
+      else:
+        name = 'q%d.%s' % (i, gen.metric_name(r, nonascii=r.random() < 0.5, punct=r.random() < 0.3))
+        if len(pool) < 12:
+          pool.append(name)
       v = gen.value(r)
       if r.random() < 0.05:
         v = r.choice([True, False])
@@ -70,6 +80,8 @@ def run_config(cfg, res):
         if t >= 2 ** 32:
           t = float(2 ** 32 - 1)
       queued.append((name, (t, v)))
+      if len(dppool) < 8:
+        dppool.append(queued[-1])
     transport.clear()
     for name, dp in queued:
       rl.manager.sendDatapoint(name, dp)
@@ -85,8 +97,13 @@ def run_config(cfg, res):
     res.count('bytes_transferred', len(data))
     # message structure: number of datapoints per message never exceeds MAX_DATAPOINTS_PER_MESSAGE
     if cfg['proto'] == 'pickle':
-      msgs = rh.decode_pickle_stream(data)
-      if any(len(m) > batch for m in msgs) or sum(len(m) for m in msgs) != n:
+      try:
+        msgs = rh.decode_pickle_stream(data)
+      except Exception as e:
+        res.violation('pickle/message-not-self-contained', 'a message produced by the pickle client cannot be unpickled on its own: %r (batch %d, %d queued)' % (e, batch, n),
+                      dict(data=data[:600].hex(), batch=batch))
+        msgs = []
+      if msgs and (any(len(m) > batch for m in msgs) or sum(len(m) for m in msgs) != n):
         res.violation('pickle/batching', 'message sizes %r for batch limit %d and %d queued' % ([len(m) for m in msgs], batch, n))
       res.count('messages', len(msgs))
     segmentations = [[data]]
